@@ -9,5 +9,12 @@ import core
 b,c = core.regenerate(core.Ctx('setup','quick',0))
 print('regenerated', c, 'broken', b)
 " 2>&1 | grep -v conda.cli || true
+MODS=$(/venv/bin/python -c "
+import json,glob
+m=[]
+for f in sorted(glob.glob('vlib/registry/*.json')):
+    for x in json.load(open(f))['modules']:
+        if x not in m: m.append(x)
+print(' '.join(m))" 2>/dev/null)
 cd lean
-lake build GSV gsvdriver 2>&1 | grep -v conda.cli | tail -5
+flock .lake.lock lake build GSV gsvdriver $MODS 2>&1 | grep -v conda.cli | tail -5
